@@ -15,6 +15,8 @@ pub enum TStat {
     AtBegin,
     Working,
     AtSend,
+    /// parked inside the body, just before a shell command starts (only when command gates are on)
+    AtRun,
     Sending,
     Sent,
     Dead,
@@ -32,6 +34,7 @@ pub struct TaskRec {
     pub thread: Option<ThreadId>,
     begin_ok: bool,
     send_ok: bool,
+    run_ok: bool,
 }
 
 #[derive(Clone, Copy, PartialEq, Eq, Debug)]
@@ -77,12 +80,17 @@ pub struct Ctl {
     pub mode: Mode,
     pub nthreads: usize,
     pub jitter: Option<u64>,
+    /// controlled mode only: a task also parks before each of its shell commands, so that the driver can interleave other
+    /// tasks with the middle of a pass body (the output of that pass is truncated / partly written at that point)
+    pub gate_runs: bool,
 }
 
 #[derive(Debug, Clone, PartialEq, Eq)]
 pub enum Decision {
     Begin(usize),
     End(usize),
+    /// let a task parked before a shell command go on
+    Cont(usize),
     Poll,
 }
 
@@ -150,6 +158,7 @@ impl Ctl {
             mode,
             nthreads: nthreads.max(1),
             jitter: None,
+            gate_runs: false,
         })
     }
 
@@ -212,7 +221,7 @@ impl Ctl {
         for t in &g.tasks {
             match t.stat {
                 TStat::Queued => q += 1,
-                TStat::AtBegin | TStat::AtSend => {
+                TStat::AtBegin | TStat::AtSend | TStat::AtRun => {
                     a += 1;
                     p += 1
                 }
@@ -272,6 +281,11 @@ impl Ctl {
             }
         }
         for t in &g.tasks {
+            if t.stat == TStat::AtRun {
+                v.push(Decision::Cont(t.id));
+            }
+        }
+        for t in &g.tasks {
             if t.stat == TStat::AtSend {
                 v.push(Decision::End(t.id));
             }
@@ -298,12 +312,14 @@ impl Ctl {
         match d {
             Decision::Begin(id) => g.tasks[*id].begin_ok = true,
             Decision::End(id) => g.tasks[*id].send_ok = true,
+            Decision::Cont(id) => g.tasks[*id].run_ok = true,
             Decision::Poll => g.poll_ok = true,
         }
         // the gate may only be observed as passed once the thread has moved on
         match d {
             Decision::Begin(id) => g.tasks[*id].stat = TStat::Working,
             Decision::End(id) => g.tasks[*id].stat = TStat::Sending,
+            Decision::Cont(id) => g.tasks[*id].stat = TStat::Working,
             Decision::Poll => g.coord = Coord::Running,
         }
         self.cv.notify_all();
@@ -355,6 +371,7 @@ impl Controller for Handle {
             thread: None,
             begin_ok: false,
             send_ok: false,
+            run_ok: false,
         });
         g.total = total;
         c.push(&mut g, json!({"e": "spawn", "k": kind, "f": file, "first": first, "total": total, "t": id}));
@@ -524,7 +541,19 @@ impl Controller for Handle {
 
     fn on_run(&self, file: &str, command: &str, work_dir: &str) {
         let c = &self.0;
+        let tid = std::thread::current().id();
         let mut g = c.inner.lock().unwrap();
+        if c.mode == Mode::Controlled && c.gate_runs && !g.drain {
+            if let Some(id) = g.tasks.iter().position(|t| t.thread == Some(tid) && t.stat == TStat::Working) {
+                g.tasks[id].stat = TStat::AtRun;
+                g.tasks[id].run_ok = false;
+                c.cv.notify_all();
+                while !g.tasks[id].run_ok && !g.drain {
+                    g = c.cv.wait(g).unwrap();
+                }
+                g.tasks[id].stat = TStat::Working;
+            }
+        }
         c.push(&mut g, json!({"e": "run", "f": file, "cmd": command, "cwd": work_dir}));
     }
 
